@@ -28,7 +28,7 @@ func runSearchLoops(recvNames ...string) func(p *Prog, r *Report) {
 			rn := namedOf(sig.Recv().Type())
 			okRecv := false
 			for _, w := range recvNames {
-				if rn != nil && rn.Obj().Name() == w {
+				if rn != nil && canonId(rn.Obj().Name()) == w {
 					okRecv = true
 				}
 			}
@@ -326,7 +326,7 @@ func runDispatch(p *Prog, r *Report) {
 		r.Add("E7.dispatch", "-", "schema package", "-", Undecided, "package schema not found", false)
 		return
 	}
-	co, _ := schemaPkg.Scope().Lookup("Constraint").(*types.TypeName)
+	co, _ := scopeLookup(schemaPkg.Scope(), "Constraint").(*types.TypeName)
 	if co == nil {
 		r.Add("E7.dispatch", "-", "schema.Constraint", "-", Undecided, "interface schema.Constraint not found", false)
 		return
@@ -334,7 +334,7 @@ func runDispatch(p *Prog, r *Report) {
 	iface := co.Type().Underlying().(*types.Interface)
 	var impls []string
 	for _, name := range schemaPkg.Scope().Names() {
-		tn, ok := schemaPkg.Scope().Lookup(name).(*types.TypeName)
+		tn, ok := scopeLookup(schemaPkg.Scope(), name).(*types.TypeName)
 		if !ok || tn == co {
 			continue
 		}
@@ -404,7 +404,7 @@ func runCapabilities(p *Prog, r *Report) {
 		return
 	}
 	lookupIface := func(name string) *types.Interface {
-		if tn, ok := dec.Scope().Lookup(name).(*types.TypeName); ok {
+		if tn, ok := scopeLookup(dec.Scope(), name).(*types.TypeName); ok {
 			if i, ok := tn.Type().Underlying().(*types.Interface); ok {
 				return i
 			}
@@ -420,7 +420,7 @@ func runCapabilities(p *Prog, r *Report) {
 	wantTargets := []string{"Any", "LiteralType", "Reference", "List", "Set", "Tuple", "Map", "Object", "OneOf"}
 	check := func(names []string, iface *types.Interface, what string) {
 		for _, n := range names {
-			tn, ok := dec.Scope().Lookup(n).(*types.TypeName)
+			tn, ok := scopeLookup(dec.Scope(), n).(*types.TypeName)
 			if !ok {
 				r.Add("E7.capability", "decoder."+n, what, "-", Violated, "decoder type "+n+" not found", true)
 				continue
@@ -448,7 +448,7 @@ func runChildCoverage(feature string, known map[string]string) func(p *Prog, r *
 			if fn.Obj == nil || !strings.HasSuffix(fn.Pkg.PkgPath, "hcl-lang/decoder") {
 				continue
 			}
-			name := fn.Obj.Name()
+			name := fname(fn.Obj)
 			if !strings.HasPrefix(name, feature) || !strings.HasSuffix(name, "Expr") && !strings.HasSuffix(name, "ExprAtPos") {
 				continue
 			}
@@ -505,7 +505,7 @@ func runChildCoverage(feature string, known map[string]string) func(p *Prog, r *
 					key := nt.Obj().Name() + "." + f.Name()
 					if read {
 						r.Add("E7.child-coverage", fn.Name, key, p.Pos(x), OK, "child expression is visited", false)
-					} else if why, ok := known[fn.Obj.Name()+"|"+key]; ok {
+					} else if why, ok := known[fname(fn.Obj)+"|"+key]; ok {
 						r.Add("E7.child-coverage", fn.Name, key, p.Pos(x), Excepted, why, true)
 					} else {
 						r.Add("E7.child-coverage", fn.Name, key, p.Pos(x), Violated, "child expression "+key+" of the handled node is never visited by this "+feature+" function: references/tokens written there are lost", true)
